@@ -663,7 +663,7 @@ fn shrink_crash(s: &Sequence) -> Sequence {
 
 fn run_sequences(ctx: &Ctx) -> CheckResult {
     let exe = std::env::current_exe().expect("current_exe");
-    let (batches, count) = ctx.tier.pick((12u64, 250u32), (64, 1000));
+    let (batches, count) = ctx.tier.pick((16u64, 300u32), (64, 1500));
     let dir = scratch();
     let tag = format!("{}-{}", std::process::id(), ctx.config.replace('@', "_"));
     let mut all_digests: Vec<u64> = Vec::new();
